@@ -4,6 +4,8 @@ import (
 	"bytes"
 	"fmt"
 	"io"
+	"runtime"
+	"strings"
 	"sync"
 	"sync/atomic"
 	"time"
@@ -165,6 +167,7 @@ func runC10(c *ev.Ctx) {
 	c10Allocator(c)
 	c10Faults(c)
 	c10Churn(c)
+	c10UnconfirmedFids(c)
 }
 
 // (1) reply permutations.
@@ -186,7 +189,7 @@ func c10Perms(c *ev.Ctx) {
 			}
 		}
 	}
-	for i := 0; i < c.Sz(30, 16000); i++ {
+	for i := 0; i < c.Sz(300, 16000); i++ {
 		k := []int{8, 16, 64, 128}[r.Intn(4)]
 		jobs = append(jobs, job{k, r.Perm(k), i, r.Bool()})
 	}
@@ -386,7 +389,7 @@ func c10Allocator(c *ev.Ctx) {
 			},
 			Equal: func(a, b interface{}) bool { return a.(uint64) == b.(uint64) },
 		}
-		rounds := c.Sz(60, 24000)
+		rounds := c.Sz(600, 24000)
 		for round := 0; round < rounds; round++ {
 			p := p9.VerifNewPool(100, 106)
 			var clock int64
@@ -446,7 +449,7 @@ func c10Faults(c *ev.Ctx) {
 	idx := 0
 	for _, kind := range kinds {
 		for point := 0; point < K; point++ {
-			for rep := 0; rep < c.Sz(4, 30); rep++ {
+			for rep := 0; rep < c.Sz(8, 30); rep++ {
 				idx++
 				if !c.Mine(idx) {
 					continue
@@ -618,7 +621,7 @@ func c10Faults(c *ev.Ctx) {
 // request-stream monitor accounts tags and fids; some binds are refused.
 func c10Churn(c *ev.Ctx) {
 	r := c.Rand("c10churn")
-	rounds := c.Sz(24, 4000)
+	rounds := c.Sz(120, 4000)
 	for round := 0; round < rounds; round++ {
 		if !c.Mine(round + 3) {
 			continue
@@ -711,5 +714,134 @@ func c10Churn(c *ev.Ctx) {
 			c.Sample(map[string]any{"part": "churn", "goroutines": G, "requests": fs.NReqs(), "fids_still_bound_at_server": fs.BoundFids()})
 		}
 		fs.Shutdown()
+	}
+}
+
+// (5) fids whose fate the client cannot know. Calls that unbind (Close,
+// Remove) or would bind (Walk) a fid are pending when the server sends a frame
+// the client cannot accept but that leaves the connection usable (unknown tag,
+// wrong reply type, undecodable body). They return an error; their requests
+// stay unanswered for good. The client then goes on walking: no new File may
+// get a fid number the server still has bound (unbind never confirmed) or may
+// yet bind (bind never refused).
+func c10UnconfirmedFids(c *ev.Ctx) {
+	r := c.Rand("c10unconf")
+	type removable interface{ Remove() error }
+	idx := 0
+	for _, kind := range []string{"unknown-tag", "wrong-R-type", "undecodable-body"} {
+		for _, pend := range []string{"Close", "Remove", "Walk", "mixed"} {
+			for rep := 0; rep < c.Sz(2, 40); rep++ {
+				idx++
+				if !c.Mine(idx) {
+					continue
+				}
+				rr := r.Fork(uint64(idx))
+				const K = 4
+				c.Begin(fmt.Sprintf("C10 unconfirmed fids fault=%s pending=%s rep=%d", kind, pend, rep))
+				cc := c10Setup(c, K+1, nil)
+				if cc == nil {
+					continue
+				}
+				base := cc.fs.NReqs()
+				errs := make([]error, K)
+				var held []p9.File
+				var hmu sync.Mutex
+				var wg sync.WaitGroup
+				kinds := make([]string, K)
+				for i := 0; i < K; i++ {
+					kinds[i] = pend
+					if pend == "mixed" {
+						kinds[i] = []string{"Close", "Remove", "Walk"}[rr.Intn(3)]
+					}
+					wg.Add(1)
+					go func(i int) {
+						defer wg.Done()
+						switch kinds[i] {
+						case "Close":
+							errs[i] = cc.files[i].Close()
+						case "Remove":
+							errs[i] = cc.files[i].(removable).Remove()
+						default:
+							_, f, err := cc.files[i].Walk([]string{"x"})
+							errs[i] = err
+							if f != nil {
+								hmu.Lock()
+								held = append(held, f)
+								hmu.Unlock()
+							}
+						}
+					}(i)
+				}
+				if o, d := cc.fs.WaitReqs(base + K); o != quiesce.CondMet {
+					hang(c, o, d, "C10:unconfirmed:calls-not-sent", nil)
+					cc.fs.Shutdown()
+					continue
+				}
+				victim := cc.fs.Reqs()[base+rr.Intn(K)]
+				t, vals := fakesrv.Derived(victim.Msg, 1<<16)
+				switch kind {
+				case "unknown-tag":
+					cc.fs.SendRaw(wire.Encode(wire.Rclunk, 0xFFF0))
+				case "wrong-R-type":
+					cc.fs.SendRaw(wire.Encode(wire.Rlopen, victim.Msg.Tag, wire.QID{}, u(0)))
+				case "undecodable-body":
+					if len(wire.LayoutOf(t).Fields) == 0 {
+						cc.fs.SendRaw(wire.Encode(wire.Rclunk, 0xFFF0)) // an empty body cannot be made undecodable
+					} else {
+						cc.fs.SendRaw(wire.Frame(t, victim.Msg.Tag, []byte{1}))
+					}
+				}
+				_ = vals
+				done := make(chan struct{})
+				go func() { wg.Wait(); close(done) }()
+				det := map[string]any{"fault": kind, "pending": kinds}
+				if o, d := quiesce.Await(done, wd); o != quiesce.CondMet {
+					hang(c, o, d, "C10:unconfirmed:pending-call-hangs:"+kind, det)
+					cc.fs.Shutdown()
+					continue
+				}
+				for i, e := range errs {
+					if e == nil {
+						c.Violation("C10:unconfirmed:pending-call-returns-success:"+kinds[i]+":"+kind, det)
+					}
+				}
+				// the old requests stay unanswered; everything new is served
+				cc.fs.Monitor()
+				cc.fs.Handler = fakesrv.Auto(0, 7)
+				walked := 0
+				wdone := make(chan struct{})
+				go func() {
+					defer close(wdone)
+					for i := 0; i < 3*K+2; i++ {
+						_, f, err := cc.root.Walk([]string{fmt.Sprintf("n%d", i)})
+						if err != nil {
+							return
+						}
+						walked++
+						hmu.Lock()
+						held = append(held, f)
+						hmu.Unlock()
+					}
+				}()
+				if o, d := quiesce.Await(wdone, wd); o != quiesce.CondMet {
+					hang(c, o, d, "C10:unconfirmed:later-walk-hangs:"+kind, det)
+					cc.fs.Shutdown()
+					continue
+				}
+				for _, m := range cc.fs.Monitor() {
+					if strings.HasPrefix(m, "fid:") {
+						d2 := map[string]any{"monitor": m, "later_walks": walked}
+						for k, v := range det {
+							d2[k] = v
+						}
+						c.Violation("C10:unconfirmed:"+firstWord(m)+":pending-"+pend+":"+kind, d2)
+					}
+				}
+				c.Case(fmt.Sprintf("unconfirmed:%s:%s:walked%d", kind, pend, minI(walked, 1)), walked > 0)
+				c.Count("walks_after_unconfirmed_unbind", int64(walked))
+				cc.fs.Shutdown()
+				runtime.KeepAlive(held)
+			}
+		}
 	}
 }
